@@ -73,9 +73,10 @@ class BatcherRoles:
         for f in [s for s in u.functions() if s.enclosing_class() is cls]:
             g = build(f, p)
             for n in g.nodes:
-                if n.kind == 'for_iter' and n.meta.get('is_async') and isinstance(n.ast.iter, ast.Call) \
-                        and self_attr(n.ast.iter.func) == 'func':
-                    self.process = f
+                if n.kind == 'for_iter' and n.meta.get('is_async'):
+                    it = resolve(g, n, n.ast.iter)
+                    if isinstance(it, ast.Call) and self_attr(it.func) == 'func':
+                        self.process = f
                 if n.kind == 'call' and call_name(g, n.ast) == 'asyncio.wait_for' and f is not self.call:
                     self.assemble = f
         for f in [s for s in u.functions() if s.enclosing_class() is cls]:
@@ -94,7 +95,10 @@ class BatcherRoles:
         # in PROCESS: BATCHCALL loop, BATCHFUTS dict
         g = self.gproc
         self.batchcall = next(n for n in g.nodes if n.kind == 'for_iter' and n.meta.get('is_async')
-                              and isinstance(n.ast.iter, ast.Call) and self_attr(n.ast.iter.func) == 'func')
+                              and isinstance(resolve(g, n, n.ast.iter), ast.Call) and self_attr(resolve(g, n, n.ast.iter).func) == 'func')
+        self.batchcall_iter = self.batchcall.ast.iter if isinstance(self.batchcall.ast.iter, ast.Call) \
+            else resolve(g, self.batchcall, self.batchcall.ast.iter, depth=1)
+        self.func_calls = [n for n in g.nodes if n.kind == 'call' and self_attr(n.ast.func) == 'func']
         tgt = self.batchcall.ast.target
         self.kvar = self.rvar = None
         if isinstance(tgt, ast.Tuple) and len(tgt.elts) == 2 and all(isinstance(e, ast.Name) for e in tgt.elts):
@@ -106,7 +110,7 @@ class BatcherRoles:
         for n in g.nodes:
             if n.kind == 'store_name' and isinstance(n.meta.get('value'), ast.DictComp):
                 self.batchfuts, self.batchfuts_expr = n.meta['name'], n.meta['value']
-        a0 = self.batchcall.ast.iter.args[0] if self.batchcall.ast.iter.args else None
+        a0 = self.batchcall_iter.args[0] if self.batchcall_iter.args else None
         if isinstance(a0, ast.Name):
             self.args_var = a0.id
         self.completes = [n for n in g.nodes if n.kind == 'call' and isinstance(n.ast.func, ast.Attribute)
@@ -248,7 +252,7 @@ def c04(ctx: Ctx) -> None:
                       construct=construct_key(r.process.qualname, 'isinstance', label, want))
     # B3
     sweeps = _sweeps(r)
-    ee = [e for e in g.succ[r.batchcall.id] if e.label == 'exc']
+    ee = [e for e in g.succ[r.batchcall.id] if e.label == 'exc'] + [e for c_ in r.func_calls for e in g.succ[c_.id] if e.label == 'exc']
     handlers = [n for n in g.nodes if n.kind == 'except' and 'Exception' in n.meta.get('classes', ())
                 or (n.kind == 'except' and 'BaseException' in n.meta.get('classes', ()))]
     b3 = []
@@ -262,7 +266,7 @@ def c04(ctx: Ctx) -> None:
                                             set(e.classes) <= {'CancelledError', 'BaseException', 'GeneratorExit'})
     w = must_pass(g, [], [g.exit, g.raise_exit], [s for _, s in b3],
                   start_edges=[e for e in ee if e.classes and ('Exception' in e.classes or 'BaseException' in e.classes)],
-                  edge_ok=lambda e: _not_ise(e) and not (e.label == 'exc' and e.dst is g.raise_exit))
+                  edge_ok=lambda e: _not_ise(e) and not (e.label == 'exc' and e.dst is g.raise_exit and not carries_exception(e.classes)))
     ctx.check('C04-B3', 'Exception edge of the batch call -> fan-out sweep with the caught exception', where,
               bool(b3) and w is None, 'raised to every caller of the batch still unanswered',
               'a failing batch function leaves the remaining callers unanswered (or answers them with something else)',
@@ -575,6 +579,11 @@ def c10(ctx: Ctx) -> None:
             ctx.undecided('C10-R2', f'return {norm(v) if v is not None else None}', g.loc(n), 'unrecognised batch value')
     gp = r.gproc
     argdefs = [n for n in gp.nodes if n.kind == 'store_name' and n.meta['name'] == r.args_var]
+    rebinds = [n for n in gp.nodes if n.kind == 'store_name' and n.meta['name'] == r.tasks_param]
+    for rb_ in rebinds:
+        ctx.violation('C10-R2', f'{norm(rb_.meta.get("stmt") or rb_.ast)[:90]}', gp.loc(rb_),
+                      'the batch is re-built (filtered) before it is handed to the batch function: it can become empty',
+                      construct=construct_key(r.process.qualname, 'batch rebound'))
     for d in argdefs:
         v = d.meta.get('value')
         ok = isinstance(v, ast.ListComp) and len(v.generators) == 1 and not v.generators[0].ifs and \
